@@ -189,18 +189,9 @@ def judge(case, res):
 
 
 # --------------------------------------------------------------------------- comparison with the model
-_GEOM_KEYS = ("leaves_s", "leaves_c", "has_geom", "surfs", "comps", "mat", "num", "link")
-
-
-def _strip(obs, partial):
-    if not partial:
-        return obs
-    return {"cells": [{k: c[k] for k in _GEOM_KEYS if k != "link"} for c in obs["cells"]], "members": {"surface": obs["members"]["surface"]}}
-
-
 def compare(case, ri, rm, upto=None):
-    """First difference between implementation and model, or None.  A `reupdate` step is compared on the
-    geometry-related fields only, and not at all when real duplicates were merged."""
+    """First difference between implementation and model, or None.  A `reupdate` step
+    (remove_duplicate_surfaces) that really merged duplicates ends the comparison (C18's subject)."""
     if not isinstance(ri.get("load"), dict) or not isinstance(rm.get("load"), dict):
         a = ri.get("load") if not isinstance(ri.get("load"), dict) else "ok"
         b = rm.get("load") if not isinstance(rm.get("load"), dict) else "ok"
@@ -212,27 +203,13 @@ def compare(case, ri, rm, upto=None):
         op, si, sm = case["ops"][k], ri["steps"][k], rm["steps"][k]
         if op[0] == "reupdate" and si.get("dups"):
             return None
-        # the universe / fill cards are pushed to the cells again at the end of a `reupdate`; that phase is not
-        # modelled, its KeyError (a universe number that is no longer in problem.universes) comes after
-        # everything that is compared
-        unmodelled_tail = op[0] == "reupdate" and si["out"] == "KeyError" and sm["out"] == "ok"
-        if si["out"] != sm["out"] and not unmodelled_tail:
+        if si["out"] != sm["out"]:
             return {"at": k, "op": op, "impl_out": si["out"], "model_out": sm["out"]}
-        if "obs" not in si or "observe_failed" in si["obs"] or _nondeterministic(op, si):
+        if "obs" not in si or "observe_failed" in si["obs"]:
             return None
-        partial = op[0] == "reupdate"
-        a, b = _strip(si["obs"], partial), _strip(sm["obs"], partial)
-        if a != b:
-            return {"at": k, "op": op, "diff": _first_diff(a, b)}
-        if partial:
-            return None
+        if si["obs"] != sm["obs"]:
+            return {"at": k, "op": op, "diff": _first_diff(si["obs"], sm["obs"])}
     return None
-
-
-def _nondeterministic(op, si):
-    # a NumberConflictError raised in the middle of _add_new_children_to_cell: which dividers were appended
-    # before depends on Python's set iteration order; the rest of the history is not compared
-    return si["out"] == "NumberConflictError" and op[0] in ("set_geom", "iand", "ior", "iand_alias", "ior_alias", "set_left", "set_right")
 
 
 def _first_diff(a, b, path=""):
@@ -247,12 +224,6 @@ def _first_diff(a, b, path=""):
             if x != y:
                 return _first_diff(x, y, path + "/" + str(i))
     return {"path": path, "impl": a, "model": b}
-
-
-def _compare_conflict_step(case, ri, rm):
-    """the step where the nondeterministic conflict happened: compare `out` only (done by compare) — the
-    observation of that very step is skipped too"""
-    return None
 
 
 # --------------------------------------------------------------------------- generators
@@ -649,8 +620,7 @@ def run(chk):
     chk.assumptions = [
         "a HalfSpace object belongs to one cell: the same HalfSpace object assigned to two cells is not modelled or generated",
         "the number cache of NumberedObjectCollection is abstracted away (C06 proves look-up by number is look-up among the members)",
-        "after remove_duplicate_surfaces only geometry, containers and material are compared with the model (the code re-reads universe and fill from the numbers as read); it is the last step of a case",
-        "which dividers were appended before a NumberConflictError inside _add_new_children_to_cell depends on Python's set order: the rest of such a history is judged by the oracle but not compared with the model",
+        "remove_duplicate_surfaces is compared with the model only when no duplicate exists (then it must touch no link); with duplicates the step is judged by the oracle only; it is the last step of a case",
         "lattice (multi-universe) fills, LIKE BUT, data-block U/FILL cards: oracle on tests/inputs only",
     ]
     chk.trusted_base = [
